@@ -49,6 +49,8 @@ pub fn run(cx: &mut Ctx) {
     padding(cx, &src);
     flag_accumulation(cx);
     crate::rules::float_rules::float_renderer(cx, "C19.G1");
+    crate::rules::float_rules::float_sign_rule(cx, "C19.S1", "format/src/cformat.rs", "CFormatSpec", "format_float");
+    bytes_padding(cx, &src);
 }
 
 fn peek_dominance(cx: &mut Ctx, src: &sm::Src) {
@@ -332,4 +334,26 @@ fn consume_length_semantics(f: &syn::ItemFn) -> Result<usize, String> {
         }
     }
     Ok(n)
+}
+
+
+/// B1: `%Ns` on bytes pads the bytes that are written.
+fn bytes_padding(cx: &mut Ctx, src: &sm::Src) {
+    let rule = "C19.B1";
+    cx.rule(rule, "format_bytes pads what it writes: the slice whose length is subtracted from the field width, the slice that is copied into the result (both alignments and the no-width case) and the slice cut to the precision (`&bytes[..min(len, precision)]`) are one and the same local — so `%5.2s` pads the two bytes it keeps, not the argument's original length");
+    cx.floor(rule, 1);
+    let Some(f) = src.method("CFormatSpec", "format_bytes") else { return cx.anchor_missing(rule, "CFormatSpec::format_bytes") };
+    let t = sm::tsc(&f.block);
+    let cap = |re: &str| -> Vec<String> { regex::Regex::new(re).unwrap().captures_iter(&t).map(|c| c[1].to_string()).collect() };
+    // the local cut to the precision
+    let cut = cap(r"let(\w+)=matchself\.precision\{Some\(CFormatPrecision::Quantity\(CFormatQuantity::Amount\((?:\w+)\)\)\)=>&\w+\[\.\.(?:cmp::)?min\(\w+\.len\(\),\w+\)\],_=>\w+\}");
+    let measured = cap(r"\.saturating_sub\((\w+)\.len\(\)\)");
+    let mut written = cap(r"\.extend_from_slice\((\w+)\)");
+    written.extend(cap(r"_=>(\w+)\.to_vec\(\)"));
+    let ok = cut.len() == 1 && measured.len() == 1 && written.len() == 3 && measured[0] == cut[0] && written.iter().all(|w| *w == cut[0]);
+    if ok {
+        cx.ok(rule, &format!("the precision-cut slice `{}` is measured for the padding and written in all three places", cut[0]));
+    } else {
+        cx.fail(rule, &format!("{}/format_bytes", rule), &src.loc(f), &format!("format_bytes: cut to the precision: {:?}; measured for the padding: {:?}; written: {:?} — these must be one local", cut, measured, written));
+    }
 }
